@@ -107,7 +107,7 @@ func (r *Run) Events() []Event {
 
 // park blocks the caller at gate `key` until the scheduler releases it (or ctx ends).
 func (r *Run) park(ctx context.Context, key string) {
-	if r.Sched == "" {
+	if r.Sched == "" || r.Sched == "free" {
 		return
 	}
 	ch := make(chan struct{})
@@ -171,7 +171,7 @@ func (r *Run) WaitParked(key string, d time.Duration) bool {
 
 // StartScheduler runs the in-probe scheduling policy until Finish is called.
 func (r *Run) StartScheduler() {
-	if r.Sched == "" {
+	if r.Sched == "" || r.Sched == "free" {
 		return
 	}
 	go func() {
@@ -366,7 +366,7 @@ func (u *Universe) resolver(typ, field string, ft reflect.Type) func([]reflect.V
 		}
 		args := ""
 		for i := 1; i < len(in); i++ {
-			if i == 1 && in[i].Type().Kind() == reflect.Ptr && u.isModelPtr(in[i].Type()) && fc.Object != "Query" && fc.Object != "Mutation" && fc.Object != "Subscription" {
+			if i == 1 && in[i].Type().Kind() == reflect.Ptr && u.isModelPtr(in[i].Type()) && !u.isRoot(fc.Object) {
 				continue // obj
 			}
 			if args != "" {
@@ -413,6 +413,15 @@ func (u *Universe) resolver(typ, field string, ft reflect.Type) func([]reflect.V
 		}
 		return []reflect.Value{ret, ev}
 	}
+}
+
+func (u *Universe) isRoot(name string) bool {
+	for _, d := range []*ast.Definition{u.Schema.Query, u.Schema.Mutation, u.Schema.Subscription} {
+		if d != nil && d.Name == name {
+			return true
+		}
+	}
+	return false
 }
 
 func (u *Universe) isModelPtr(t reflect.Type) bool {
